@@ -26,6 +26,11 @@ CHECKS = {
          "Full grid of deputy counts (1..7 quick, 1..17 thorough) x list variants x slot lengths x 16 heights around term boundaries x every parent miner (incl. non-deputies) x every target deputy x every second of 3 rounds with ms offsets {-1,0,1,500,999} plus slot edges after 10^3 and 10^6 rounds: GetCorrectMiner/VerifyMiner agree with the reference and accept exactly one deputy; distance functions are inverse; the window a deputy computes (GetNextMineWindow + miner.getSleepTime) is its earliest slot not yet ended; every whole-second stamp inside it is accepted for that deputy only.",
          "TermDuration=10, InterimDuration=3; a mid-term parent that is not a deputy is recorded, not asserted; header times below 10^7 s (where GetCorrectMiner panics by design of its ms guard) are outside the statement's 'instants not before the parent'.",
          "DESIGN.md section 4 C13"),
+ "C02": ("exploration",
+         "exhaustive enumeration of a mutation-operator table x signing modes on real nodes, reference validity predicate + honest re-execution by the block factory, before/after snapshot comparison",
+         "Every single mutation operator (52 operators over parent, miner, roots, height, gas, time, extra, transactions, change logs, deputy list) x 6 signing modes (kept, re-signed by the miner / another deputy / an outsider, junk, empty) x {roots recomputed or not} on 7 (chain state, valid candidate block) pairs (fresh, 3-block chain, two forks, after a stable advance; on head and on inner / short-fork parents), thorough: all pairs of operators from different groups. accepted => validRef (parent known, height, time window, extra, signed by the reference-rotation deputy with its miner address, tx windows and replays, equality with an honest re-execution by the factory); rejected => (head, stable, stored blocks + confirm counts, watched accounts at head, pool, tx-guard answers) unchanged; a panic is a violation.",
+         "3 genesis deputies, 10 s slots, observer node, wall clock far later than honest block times (the now+1 s tolerance edge is not enumerated); gasLimit and extra are the miner's free choices; snapshot-height candidate blocks not yet enumerated.",
+         "DESIGN.md section 4 C02"),
 }
 
 NOT_YET = "check not built yet in this round (design in DESIGN.md section 4); no technique switch intended"
